@@ -17,6 +17,7 @@ import Poulpy.Lemmas.TensorCols
 import Poulpy.Lemmas.TensorValue
 import Poulpy.Lemmas.MulCompose
 import Poulpy.Lemmas.RelinCross
+import Poulpy.Lemmas.MulNoise
 import Poulpy.Props.C02
 import Poulpy.Props.C07
 
@@ -2096,5 +2097,320 @@ example : ∃ T res, tensorApply false false 1 2 4 4 4 [[[3], [0]], [[1], [0]]] 
     (by decide) rfl (by decide) (Ks.entry_length exTsk.toPMat 1 rfl (by decide +kernel)) (by decide) (by decide) (by decide)
     (by intro i _ r _; exact (add_sub_cancel _ _).symm)
   exact ⟨T, res, h1, h2, h3⟩
+
+/-! ## Noise in closed form -/
+
+/-- **`negMul_norm1_le`** — `‖p ⋆ q‖₁ ≤ ‖p‖₁·‖q‖₁` for the exact negacyclic product (the 1/1 companion of C01's `‖p ⋆ q‖_∞ ≤ ‖p‖₁·‖q‖_∞`):
+the weight of a product of secrets `s_i ⋆ s_j` is at most the product of the weights. -/
+theorem negMul_norm1_le (p q : Poly) : norm1 (Hal.negMul p q) ≤ norm1 p * norm1 q := norm1_negMul_le p q
+
+example : norm1 (Hal.negMul [1, -1, 0, 1] [0, 1, 1, -1]) ≤ norm1 [1, -1, 0, 1] * norm1 [0, 1, 1, -1] := negMul_norm1_le _ _
+
+/-- **`tensor_noise_bound`** — `glwe_tensor_apply` with the residual sum COLLAPSED into one noise polynomial with a closed-form `‖·‖_∞` bound.
+With `σ_i = ι(sP i)` (`sP 0 = 1`, `sP (i+1) = s_i`), `w_i = ‖sP i‖₁`, `Hc` a bound of the full convolutions' coefficients
+(`mul_plain_headroom`: `sb·N·Da·Db`):
+`A·phase_{(s,s⊗s)}(T) = K·β·(Σσ_i val(a'_i))·(Σσ_j val(b'_j)) + ι(errT) + A'·M·Qa − K·β^F·Qb`,
+`‖errT‖_∞ ≤ (Σ_i w_i² + 3·Σ_{i<j} w_i·w_j)·(2^{b(F−S)}·tol + 2^{rb·rs+lo⁺}·Hc·geo2(2^b, F−S))` (`Core.tensorNoiseBound`, `Core.cnvNoiseBound`):
+per normalised product one rounding `tol = normTolOff` (≤ one unit of the result's last limb, `0` when nothing is cut) plus the dropped limbs of the
+truncated convolution (`Σ_{m<F−S} β^m ≤ 2β^{F−S−1}` limbs' worth of `Hc`), weighted by the secret products (`negMul_norm1_le`). -/
+theorem tensor_noise_bound (big128 : Bool) (N rb rs off b : Nat) (a bb : List Col) (aK bK : Nat) (res0 : List Col) (skG : List Poly)
+    (sP : ℕ → Poly) (Hc : Int) (sa sb cols : Nat) (hN : 0 < N)
+    (hcols : a.length = cols) (hcb : bb.length = cols) (hc1 : 1 ≤ cols)
+    (ha : ∀ x ∈ a, x.length = sa ∧ ∀ l ∈ x, l.length = N) (hbb : ∀ x ∈ bb, x.length = sb ∧ ∀ l ∈ x, l.length = N)
+    (hsa : 1 ≤ sa) (hsb : 1 ≤ sb) (hhi : (cnvOffsetSplit b off).1 ≤ sa + sb - 1)
+    (hr0 : res0.length = (cols + 1) * cols / 2)
+    (hrb1 : 1 ≤ rb) (hrb : rb ≤ 61) (hb1 : 1 ≤ b) (hb : b ≤ 62) (hH0 : 0 ≤ Hc) (hH : Hc + 8 ≤ 2 ^ (bitsOf big128 - 2))
+    (hfullD : ∀ i, i < cols → ∀ l ∈ Hal.cnvApplyCol N (sa + sb - (cnvOffsetSplit b off).1) (cnvOffsetSplit b off).1
+        ((prepAll N (msbMaskBottomLimb b aK) a).getD i []) ((prepAll N (msbMaskBottomLimb b bK) bb).getD i []), ∀ v ∈ l, |v| ≤ Hc)
+    (hfullP : ∀ i j, i < j → j < cols → ∀ l ∈ Hal.cnvApplyCol N (sa + sb - (cnvOffsetSplit b off).1) (cnvOffsetSplit b off).1
+        (Hal.colAdd N ((prepAll N (msbMaskBottomLimb b aK) a).getD i []) ((prepAll N (msbMaskBottomLimb b aK) a).getD j []))
+        (Hal.colAdd N ((prepAll N (msbMaskBottomLimb b bK) bb).getD i []) ((prepAll N (msbMaskBottomLimb b bK) bb).getD j [])),
+        ∀ v ∈ l, |v| ≤ Hc)
+    (hskl : skG.length = (cols + 1) * cols / 2 - 1) (hsP : ∀ i, (sP i).length = N) (hσ0 : Ks.ι N (sP 0) = 1)
+    (hτ : ∀ i j, i ≤ j → j < cols → 0 < cix cols i j → Ks.ι N (skG.getD (cix cols i j - 1) []) = Ks.ι N (sP i) * Ks.ι N (sP j)) :
+    ∃ T, tensorApply false big128 N rb rs off b a aK bb bK res0 = some T ∧ T.length = (cols + 1) * cols / 2 ∧ (∀ c ∈ T, C02L.ColWF N rs c) ∧
+      (∀ c ∈ T, ∀ l ∈ c, ∀ v ∈ l, |v| ≤ 3 * (2 ^ rb - 1)) ∧
+      ∃ (errT : Poly) (Qa Qb : Ks.R N), errT.length = N ∧
+        normInf errT ≤ tensorNoiseBound cols (fun i => norm1 (sP i))
+          (cnvNoiseBound b rb rs (cnvOffsetSplit b off).2 (sa + sb - (cnvOffsetSplit b off).1)
+            (limbBoundWithOffset (sa + sb - (cnvOffsetSplit b off).1) rs rb b (cnvOffsetSplit b off).2)
+            (normTolOff (rb * rs) (b * limbBoundWithOffset (sa + sb - (cnvOffsetSplit b off).1) rs rb b (cnvOffsetSplit b off).2) (cnvOffsetSplit b off).2) Hc) ∧
+        (((2 : Ks.R N) ^ b) ^ (sa + sb - (cnvOffsetSplit b off).1 - limbBoundWithOffset (sa + sb - (cnvOffsetSplit b off).1) rs rb b (cnvOffsetSplit b off).2)
+            * (2 : Ks.R N) ^ (b * limbBoundWithOffset (sa + sb - (cnvOffsetSplit b off).1) rs rb b (cnvOffsetSplit b off).2 + (-(cnvOffsetSplit b off).2).toNat))
+          * Ks.ι N (C02L.valP rb N (Core.Ops.phase skG (Ks.mkCt rb N T)))
+          = ((2 : Ks.R N) ^ (rb * rs) * (2 : Ks.R N) ^ (cnvOffsetSplit b off).2.toNat) * ((2 : Ks.R N) ^ b)
+              * ((∑ i ∈ Finset.range cols, Ks.ι N (sP i) * colVal N ((2 : Ks.R N) ^ b) ((prepAll N (msbMaskBottomLimb b aK) a).getD i []))
+                * (∑ j ∈ Finset.range cols, Ks.ι N (sP j) * colVal N ((2 : Ks.R N) ^ b) ((prepAll N (msbMaskBottomLimb b bK) bb).getD j [])))
+            + Ks.ι N errT
+            + (((2 : Ks.R N) ^ b) ^ (sa + sb - (cnvOffsetSplit b off).1 - limbBoundWithOffset (sa + sb - (cnvOffsetSplit b off).1) rs rb b (cnvOffsetSplit b off).2)
+                * (2 : Ks.R N) ^ (rb * rs + (b * limbBoundWithOffset (sa + sb - (cnvOffsetSplit b off).1) rs rb b (cnvOffsetSplit b off).2 + (-(cnvOffsetSplit b off).2).toNat))) * Qa
+            - ((2 : Ks.R N) ^ (rb * rs) * (2 : Ks.R N) ^ (cnvOffsetSplit b off).2.toNat * ((2 : Ks.R N) ^ b) ^ (sa + sb - (cnvOffsetSplit b off).1)) * Qb :=
+  tensorApply_noise big128 N rb rs off b a bb aK bK res0 skG sP Hc sa sb cols hN hcols hcb hc1 ha hbb hsa hsb hhi hr0 hrb1 hrb hb1 hb hH0 hH
+    hfullD hfullP hskl hsP hσ0 hτ
+
+/-- rank 1, grouped secret `[s, s⋆s]`, `sP = (1, s)` -/
+example : ∃ T, tensorApply false false 1 4 2 4 4 [[[3], [0]], [[1], [0]]] 8 [[[2], [0]], [[1], [0]]] 8 (zeroCols 1 3 2) = some T ∧ T.length = 3 := by
+  obtain ⟨T, h1, h2, _⟩ := tensor_noise_bound false 1 4 2 4 4 [[[3], [0]], [[1], [0]]] [[[2], [0]], [[1], [0]]] 8 8 (zeroCols 1 3 2)
+    [[2], Hal.negMul [2] [2]] (fun i => if i = 0 then [1] else [2]) (2 ^ 61) 2 2 2 (by decide) rfl rfl (by decide)
+    (by decide) (by decide) (by decide) (by decide) (by decide) (by decide) (by decide) (by decide) (by decide) (by decide) (by decide) (by decide)
+    (by decide)
+    (by
+      intro i j hij hj
+      have h01 : i = 0 ∧ j = 1 := by omega
+      obtain ⟨rfl, rfl⟩ := h01
+      decide)
+    (by decide) (by intro i; by_cases h : i = 0 <;> simp [h])
+    (by show Ks.ι 1 [1] = 1; unfold Ks.ι; simp [toPoly])
+    (by
+      intro i j hij hj hpos
+      have hcases : (i = 0 ∧ j = 1) ∨ (i = 1 ∧ j = 1) := by
+        have hj2 : j < 2 := hj
+        have : ¬ (i = 0 ∧ j = 0) := by
+          rintro ⟨rfl, rfl⟩; simp [cix, colIdx] at hpos
+        omega
+      rcases hcases with ⟨rfl, rfl⟩ | ⟨rfl, rfl⟩
+      · have e : cix 2 0 1 - 1 = 0 := by decide
+        rw [e]
+        show Ks.ι 1 [2] = Ks.ι 1 [1] * Ks.ι 1 [2]
+        have : Ks.ι 1 [1] = 1 := by unfold Ks.ι; simp [toPoly]
+        rw [this, one_mul]
+      · have e : cix 2 1 1 - 1 = 1 := by decide
+        rw [e]
+        show Ks.ι 1 (Hal.negMul [2] [2]) = Ks.ι 1 [2] * Ks.ι 1 [2]
+        rw [Ks.ι_negMul 1 _ _ rfl (by decide)])
+  exact ⟨T, h1, h2⟩
+
+/-- the closed-form bounds instantiated on the crate's parameter sets (secret of weight `‖s‖₁ ≤ 64`, rank 1, three limbs per operand,
+`cnv_offset = 2·base2k`), in units `A = 2^{b(F−S)}·2^{b·S}` of the tensor's last limb: bench core (`N = 4096`, `b = 18`) at most `2^45` units, CKKS
+(`N = 4096`, `b = 52`) at most `2^79` units — the worst-case bound is dominated by the dropped limbs of the truncated convolution
+(`Hc·2β^{F−S−1}` per product), as the correspondence oracle's bound is. -/
+example : tensorNoiseBound 2 (fun i => if i = 0 then 1 else 64)
+      (cnvNoiseBound 18 18 3 0 5 3 (normTolOff (18 * 3) (18 * 3) 0) (3 * (4096 * 2 ^ 18 * 2 ^ 18)))
+      ≤ 2 ^ 45 * (2 ^ (18 * (5 - 3)) * 2 ^ (18 * 3)) ∧
+    tensorNoiseBound 2 (fun i => if i = 0 then 1 else 64)
+      (cnvNoiseBound 52 52 3 0 5 3 (normTolOff (52 * 3) (52 * 3) 0) (3 * (4096 * 2 ^ 52 * 2 ^ 52)))
+      ≤ 2 ^ 79 * (2 ^ (52 * (5 - 3)) * 2 ^ (52 * 3)) := by decide
+
+/-- closed-form noise bound of the ciphertext × ciphertext product (tensor key `dsize ≤ 2`): tensor noise, gadget error
+`pairs·dnum·(Σ_{di<dsize} 2^{bt·di})·N·3(2^bt−1)·BE` (`BE` = bound of the tensor-key errors), final rounding -/
+def glweMulNoiseBound (N cols : Nat) (w : ℕ → Int) (wsum : Int) (b bt rsT rb rs : Nat) (lo : Int) (F Sd : Nat) (Hc : Int)
+    (pairs dnum dsize S : Nat) (BE : Int) : Int :=
+  2 ^ (rb * rs) * 2 ^ (bt * (S - rsT)) *
+      tensorNoiseBound cols w (cnvNoiseBound b bt rsT lo F Sd (normTolOff (bt * rsT) (b * Sd) lo) Hc)
+    + 2 ^ (b * (F - Sd)) * 2 ^ (b * Sd + (-lo).toNat) * 2 ^ (rb * rs) *
+        ((pairs : Int) * ((dnum : Int) * ((∑ di ∈ Finset.range dsize, (2 : Int) ^ (bt * di)) * ((N : Int) * (3 * (2 ^ bt - 1))) * BE)))
+    + 2 ^ (b * (F - Sd)) * 2 ^ (b * Sd + (-lo).toNat) * ((1 + wsum) * C02.normTol (rb * rs) (bt * S))
+
+/-- **`glwe_mul_noise_bound`** — the ciphertext × ciphertext product with ALL noise collapsed into one polynomial with a closed-form bound
+(`glweMulNoiseBound`), tensor key `dsize ≤ 2` (nothing is dropped by the gadget: the crate's core / CKKS sets use `dsize = 1`), key errors given as
+polynomials `EL` with `‖EL‖_∞ ≤ BE`:
+`A·2^{bt·S}·phase_s(res) = 2^{rb·rs}·β^{S−rsT}·K·β·(Σσ_i val(a'_i))·(Σσ_j val(b'_j)) + ι(Noise) + C₁Q₁ − C₂Q₂ − C₃Q₃ + C₄Q₄` with explicit
+multiples of the four moduli, and `‖Noise‖_∞ ≤ 2^{rb·rs}·2^{bt(S−rsT)}·tensorNoiseBound + A·2^{rb·rs}·pairs·dnum·(Σ_{di<dsize}2^{bt·di})·N·3(2^bt−1)·BE
++ A·(1+Σ‖s_i‖₁)·normTol`. -/
+theorem glwe_mul_noise_bound (big128 : Bool) (N rsT off b : Nat) (a bb : List Col) (aK bK : Nat) (res0T : List Col)
+    (g : GGLWE) (rb rs : Nat) (res0 : List Col) (sk skG : List Poly) (sP : ℕ → Poly) (EL : ℕ → ℕ → Poly)
+    (Hc Dm BE : Int) (sa sb cols : Nat) (hN : 0 < N)
+    (hcols : a.length = cols) (hcb : bb.length = cols) (hc1 : 1 ≤ cols)
+    (ha : ∀ x ∈ a, x.length = sa ∧ ∀ l ∈ x, l.length = N) (hbb : ∀ x ∈ bb, x.length = sb ∧ ∀ l ∈ x, l.length = N)
+    (hsa : 1 ≤ sa) (hsb : 1 ≤ sb) (hhi : (cnvOffsetSplit b off).1 ≤ sa + sb - 1)
+    (hr0 : res0T.length = (cols + 1) * cols / 2)
+    (hbt1 : 1 ≤ g.base2k) (hbt : g.base2k ≤ 61) (hb1 : 1 ≤ b) (hb : b ≤ 62) (hH0 : 0 ≤ Hc) (hH : Hc + 8 ≤ 2 ^ (bitsOf big128 - 2))
+    (hfullD : ∀ i, i < cols → ∀ l ∈ Hal.cnvApplyCol N (sa + sb - (cnvOffsetSplit b off).1) (cnvOffsetSplit b off).1
+        ((prepAll N (msbMaskBottomLimb b aK) a).getD i []) ((prepAll N (msbMaskBottomLimb b bK) bb).getD i []), ∀ v ∈ l, |v| ≤ Hc)
+    (hfullP : ∀ i j, i < j → j < cols → ∀ l ∈ Hal.cnvApplyCol N (sa + sb - (cnvOffsetSplit b off).1) (cnvOffsetSplit b off).1
+        (Hal.colAdd N ((prepAll N (msbMaskBottomLimb b aK) a).getD i []) ((prepAll N (msbMaskBottomLimb b aK) a).getD j []))
+        (Hal.colAdd N ((prepAll N (msbMaskBottomLimb b bK) bb).getD i []) ((prepAll N (msbMaskBottomLimb b bK) bb).getD j [])),
+        ∀ v ∈ l, |v| ≤ Hc)
+    (hskl : skG.length = (cols + 1) * cols / 2 - 1) (hsP : ∀ i, (sP i).length = N) (hσ0 : Ks.ι N (sP 0) = 1)
+    (hτ : ∀ i j, i ≤ j → j < cols → 0 < cix cols i j → Ks.ι N (skG.getD (cix cols i j - 1) []) = Ks.ι N (sP i) * Ks.ι N (sP j))
+    (hsk : cols - 1 ≤ sk.length) (hskG1 : ∀ k, k < cols - 1 → skG.getD k [] = sk.getD k [])
+    (hco : g.colsOut = cols) (hci : g.colsOut + g.colsIn = (cols + 1) * cols / 2) (hci0 : 1 ≤ g.colsIn)
+    (hrb1 : 1 ≤ rb) (hrb : rb ≤ 62) (hDm : 0 ≤ Dm)
+    (hadm : prodAdmissible (bitsOf big128) g.dsize g.colsIn g.dnum N (3 * (2 ^ g.base2k - 1)) Dm (3 * (2 ^ g.base2k - 1)))
+    (hgd : ∀ row ∈ g.cells, ∀ c ∈ row, ∀ l ∈ c, ∀ x ∈ l, |x| ≤ Dm)
+    (hd : 1 ≤ g.dsize) (hd2 : g.dsize ≤ 2) (hn : g.n = N) (h0 : shapeOk g.n g.colsOut g.size res0 = true)
+    (hM : ∀ j q, (g.toPMat.entry j q).length = N)
+    (hS : g.dnum * g.dsize ≤ g.size) (hcov1 : rsT ≤ g.size) (hcov2 : rsT ≤ g.dnum * g.dsize)
+    (hEL : ∀ i r, (EL i r).length = N) (hBE : ∀ i r, normInf (EL i r) ≤ BE)
+    (hkey : ∀ i, i < g.colsIn → ∀ r, r < g.dnum →
+      Gadget.val ((2 : Ks.R N) ^ g.base2k) g.size (Ks.keyPhase N sk g.toPMat i r)
+        = 1 * Ks.ι N (skG.getD (cols - 1 + i) []) * ((2 : Ks.R N) ^ g.base2k) ^ (g.size - (r + 1) * g.dsize) + Ks.ι N (EL i r)) :
+    ∃ T res, tensorApply false big128 N g.base2k rsT off b a aK bb bK res0T = some T ∧
+      relinearize big128 N rb rs T g.base2k g g.size res0 = some res ∧ C02L.GWF N (Ks.mkCt rb N res) ∧
+      ∃ (Noise : Poly) (Q1 Q2 Q3 Q4 : Ks.R N), Noise.length = N ∧
+        normInf Noise ≤ glweMulNoiseBound N cols (fun i => norm1 (sP i)) (C02L.snorm (min (cols - 1) sk.length) sk) b g.base2k rsT rb rs
+          (cnvOffsetSplit b off).2 (sa + sb - (cnvOffsetSplit b off).1)
+          (limbBoundWithOffset (sa + sb - (cnvOffsetSplit b off).1) rsT g.base2k b (cnvOffsetSplit b off).2) Hc
+          g.colsIn g.dnum g.dsize g.size BE ∧
+        (((2 : Ks.R N) ^ b) ^ (sa + sb - (cnvOffsetSplit b off).1 - limbBoundWithOffset (sa + sb - (cnvOffsetSplit b off).1) rsT g.base2k b (cnvOffsetSplit b off).2)
+            * (2 : Ks.R N) ^ (b * limbBoundWithOffset (sa + sb - (cnvOffsetSplit b off).1) rsT g.base2k b (cnvOffsetSplit b off).2 + (-(cnvOffsetSplit b off).2).toNat))
+          * ((2 : Ks.R N) ^ (g.base2k * g.size) * Ks.ι N (C02L.valP rb N (Core.Ops.phase sk (Ks.mkCt rb N res))))
+          = (2 : Ks.R N) ^ (rb * rs) * ((2 : Ks.R N) ^ g.base2k) ^ (g.size - rsT)
+              * (((2 : Ks.R N) ^ (g.base2k * rsT) * (2 : Ks.R N) ^ (cnvOffsetSplit b off).2.toNat) * ((2 : Ks.R N) ^ b)
+                * ((∑ i ∈ Finset.range cols, Ks.ι N (sP i) * colVal N ((2 : Ks.R N) ^ b) ((prepAll N (msbMaskBottomLimb b aK) a).getD i []))
+                  * (∑ j ∈ Finset.range cols, Ks.ι N (sP j) * colVal N ((2 : Ks.R N) ^ b) ((prepAll N (msbMaskBottomLimb b bK) bb).getD j []))))
+            + Ks.ι N Noise
+            + (2 : Ks.R N) ^ (rb * rs) * ((2 : Ks.R N) ^ g.base2k) ^ (g.size - rsT) *
+                (((2 : Ks.R N) ^ b) ^ (sa + sb - (cnvOffsetSplit b off).1 - limbBoundWithOffset (sa + sb - (cnvOffsetSplit b off).1) rsT g.base2k b (cnvOffsetSplit b off).2)
+                  * (2 : Ks.R N) ^ (g.base2k * rsT + (b * limbBoundWithOffset (sa + sb - (cnvOffsetSplit b off).1) rsT g.base2k b (cnvOffsetSplit b off).2 + (-(cnvOffsetSplit b off).2).toNat))) * Q1
+            - (2 : Ks.R N) ^ (rb * rs) * ((2 : Ks.R N) ^ g.base2k) ^ (g.size - rsT) *
+                ((2 : Ks.R N) ^ (g.base2k * rsT) * (2 : Ks.R N) ^ (cnvOffsetSplit b off).2.toNat * ((2 : Ks.R N) ^ b) ^ (sa + sb - (cnvOffsetSplit b off).1)) * Q2
+            - (2 : Ks.R N) ^ (rb * rs) *
+                (((2 : Ks.R N) ^ b) ^ (sa + sb - (cnvOffsetSplit b off).1 - limbBoundWithOffset (sa + sb - (cnvOffsetSplit b off).1) rsT g.base2k b (cnvOffsetSplit b off).2)
+                  * (2 : Ks.R N) ^ (b * limbBoundWithOffset (sa + sb - (cnvOffsetSplit b off).1) rsT g.base2k b (cnvOffsetSplit b off).2 + (-(cnvOffsetSplit b off).2).toNat))
+                * ((2 : Ks.R N) ^ g.base2k) ^ g.size * Q3
+            + (((2 : Ks.R N) ^ b) ^ (sa + sb - (cnvOffsetSplit b off).1 - limbBoundWithOffset (sa + sb - (cnvOffsetSplit b off).1) rsT g.base2k b (cnvOffsetSplit b off).2)
+                  * (2 : Ks.R N) ^ (b * limbBoundWithOffset (sa + sb - (cnvOffsetSplit b off).1) rsT g.base2k b (cnvOffsetSplit b off).2 + (-(cnvOffsetSplit b off).2).toNat))
+                * (2 : Ks.R N) ^ (rb * rs + g.base2k * g.size) * Q4 := by
+  set hi := (cnvOffsetSplit b off).1 with hhi_def
+  set lo := (cnvOffsetSplit b off).2 with hlo_def
+  set Sd := limbBoundWithOffset (sa + sb - hi) rsT g.base2k b lo with hSd
+  obtain ⟨T, res, hT, hres, hgwf, _, _, En, Q, hE, hQ, hnm, heq⟩ := glwe_mul_decrypts big128 N rsT off b a bb aK bK res0T g rb rs res0 sk skG
+    (fun i => Ks.ι N (sP i)) (fun i r => Ks.ι N (EL i r)) Hc Dm sa sb cols hN hcols hcb hc1 ha hbb hsa hsb hhi hr0 hbt1 hbt hb1 hb hH0 hH
+    (fun i hic l hl => by
+      have hSle : Sd ≤ sa + sb - hi := limbBoundWithOffset_le _ _ _ _ _
+      rw [cnvApplyCol_take N Sd (sa + sb - hi) hi _ _ hSle] at hl
+      exact hfullD i hic l (List.mem_of_mem_take hl))
+    (fun i j hij hjc l hl => by
+      have hSle : Sd ≤ sa + sb - hi := limbBoundWithOffset_le _ _ _ _ _
+      rw [cnvApplyCol_take N Sd (sa + sb - hi) hi _ _ hSle] at hl
+      exact hfullP i j hij hjc l (List.mem_of_mem_take hl))
+    hskl hσ0 hτ hsk hskG1 hco hci hrb1 hrb hDm hadm hgd hd hn h0 hM hS hcov1 hcov2 hkey
+  obtain ⟨T', hT', hTlen, hTwf, hTdig, errT, Qa, Qb, herrl, herrb, hten⟩ := tensor_noise_bound big128 N g.base2k rsT off b a bb aK bK res0T skG
+    sP Hc sa sb cols hN hcols hcb hc1 ha hbb hsa hsb hhi hr0 hbt1 hbt hb1 hb hH0 hH hfullD hfullP hskl hsP hσ0 hτ
+  have hTT : T' = T := by rw [hT] at hT'; exact (Option.some.inj hT').symm
+  subst hTT
+  -- the gadget terms as polynomials
+  have hTlen' : T'.length = g.colsOut + g.colsIn := by rw [hTlen, hci]
+  have hT0 : 0 < T'.length := by rw [hTlen', hco]; omega
+  have hri := relinInput_eq N T' g rsT hbt1 hT0 hTlen' hTwf
+  have hcolT : ∀ k, k < T'.length → C02L.ColWF N rsT (T'.getD k []) ∧ ∀ l ∈ T'.getD k [], ∀ v ∈ l, |v| ≤ 3 * (2 ^ g.base2k - 1) := by
+    intro k hk
+    rw [List.getD_eq_getElem?_getD, List.getElem?_eq_getElem hk]
+    exact ⟨hTwf _ (List.getElem_mem hk), hTdig _ (List.getElem_mem hk)⟩
+  have hriwf : ∀ c ∈ relinInput N T' g, C02L.ColWF N rsT c := by
+    rw [hri]; intro c hc
+    obtain ⟨i, hi', rfl⟩ := List.mem_map.mp hc
+    exact (hcolT _ (by have := List.mem_range.mp hi'; omega)).1
+  have hrib : ∀ c ∈ relinInput N T' g, ∀ l ∈ c, ∀ x ∈ l, |x| ≤ 3 * (2 ^ g.base2k - 1) := by
+    rw [hri]; intro c hc
+    obtain ⟨i, hi', rfl⟩ := List.mem_map.mp hc
+    exact (hcolT _ (by have := List.mem_range.mp hi'; omega)).2
+  have hY0 : (0 : Int) ≤ 3 * (2 ^ g.base2k - 1) := by
+    have : (1 : Int) ≤ 2 ^ g.base2k := one_le_pow₀ (by norm_num)
+    linarith
+  have hrilen : (relinInput N T' g).length = g.colsIn := by simp [relinInput]
+  have h0' : 0 < (relinInput N T' g).length := by rw [hrilen]; omega
+  have hcs : ((relinInput N T' g).getD 0 []).length = rsT := by
+    rw [List.getD_eq_getElem?_getD, List.getElem?_eq_getElem h0']; exact (hriwf _ (List.getElem_mem h0')).1
+  have hpoly := relinErr_poly N hN sk (relinInput N T' g) g EL rsT hn (by omega) hM hriwf hcs hEL
+  have hdrop0 := Ks.ι_dropL_eq_zero N g.base2k sk (mkBuf g.n g.colsIn ((relinInput N T' g).getD 0 []).length (relinInput N T' g)) g.toKey hN
+    (by show 0 < g.colsOut; omega) hM hd2
+  have hA : ∀ c l, (limbOr0 N ((mkBuf g.n g.colsIn ((relinInput N T' g).getD 0 []).length (relinInput N T' g)).act c) l).length = N := by
+    intro c l; rw [hn, hcs]; exact mkBuf_act_limb N g.colsIn rsT _ hriwf c l
+  have hgb := Ks.normInf_errL_le_of_bounds N g.base2k (mkBuf g.n g.colsIn ((relinInput N T' g).getD 0 []).length (relinInput N T' g)) g.toKey EL
+    (3 * (2 ^ g.base2k - 1)) BE hA
+    (fun i l => by rw [hn]; exact mkBuf_act_normInf N g.colsIn _ _ _ hY0 hrib i l) hBE
+  have herrLlen := Ks.errL_length N g.base2k (mkBuf g.n g.colsIn ((relinInput N T' g).getD 0 []).length (relinInput N T' g)) g.toKey EL hEL
+  -- the total noise polynomial
+  refine ⟨T', res, hT, hres, hgwf,
+    Hal.polyAdd (Hal.polyAdd (Hal.polyScale (2 ^ (rb * rs) * 2 ^ (g.base2k * (g.size - rsT))) errT)
+      (Hal.polyScale (2 ^ (b * (sa + sb - hi - Sd)) * 2 ^ (b * Sd + (-lo).toNat) * 2 ^ (rb * rs))
+        (Ks.errL N g.base2k (mkBuf g.n g.colsIn ((relinInput N T' g).getD 0 []).length (relinInput N T' g)) g.toKey EL)))
+      (Hal.polyScale (2 ^ (b * (sa + sb - hi - Sd)) * 2 ^ (b * Sd + (-lo).toNat)) En),
+    Qa, Qb,
+    ∑ i ∈ Finset.range g.colsIn, Gadget.head ((2 : Ks.R N) ^ g.base2k) g.dsize g.dnum ((relinInput N T' g).getD 0 []).length
+      (Ks.inLimb N (mkBuf g.n g.colsIn ((relinInput N T' g).getD 0 []).length (relinInput N T' g)) i) (Ks.keyPhase N sk g.toPMat i),
+    Ks.ι N Q, ?_, ?_, ?_⟩
+  · rw [Hal.polyAdd_length, Hal.polyAdd_length, Hal.polyScale_length, Hal.polyScale_length, Hal.polyScale_length, herrl, herrLlen, hE]; simp
+  · unfold glweMulNoiseBound
+    refine (normInf_polyAdd_le _ _).trans (add_le_add ((normInf_polyAdd_le _ _).trans (add_le_add ?_ ?_)) ?_)
+    · rw [normInf_polyScale, abs_of_nonneg (by positivity)]
+      exact mul_le_mul_of_nonneg_left herrb (by positivity)
+    · rw [normInf_polyScale, abs_of_nonneg (by positivity)]
+      exact mul_le_mul_of_nonneg_left hgb (by positivity)
+    · rw [normInf_polyScale, abs_of_nonneg (by positivity)]
+      exact mul_le_mul_of_nonneg_left hnm (by positivity)
+  · unfold relinErr at heq
+    rw [hpoly, hdrop0] at heq
+    rw [Ks.ι_add N _ _ (by rw [Hal.polyAdd_length, Hal.polyScale_length, Hal.polyScale_length, Hal.polyScale_length, herrl, herrLlen, hE]; simp),
+      Ks.ι_add N _ _ (by rw [Hal.polyScale_length, Hal.polyScale_length, herrl, herrLlen]), ι_polyScale, ι_polyScale, ι_polyScale]
+    push_cast
+    have e1 : (2 : Ks.R N) ^ (g.base2k * (g.size - rsT)) = ((2 : Ks.R N) ^ g.base2k) ^ (g.size - rsT) := pow_mul _ _ _
+    have e2 : (2 : Ks.R N) ^ (b * (sa + sb - hi - Sd)) = ((2 : Ks.R N) ^ b) ^ (sa + sb - hi - Sd) := pow_mul _ _ _
+    rw [e1, e2]
+    linear_combination (((2 : Ks.R N) ^ b) ^ (sa + sb - hi - Sd) * (2 : Ks.R N) ^ (b * Sd + (-lo).toNat)) * heq
+      + ((2 : Ks.R N) ^ (rb * rs) * ((2 : Ks.R N) ^ g.base2k) ^ (g.size - rsT)) * hten
+
+/-- rank 1, one-pair tensor key `exTsk` (`dsize = 2`), key error := the one defined by the key equation (`Ks.keyErrL`), every hypothesis discharged -/
+example : ∃ T res, tensorApply false false 1 exTsk.base2k 2 4 4 [[[3], [0]], [[1], [0]]] 8 [[[2], [0]], [[1], [0]]] 8 (zeroCols 1 3 2) = some T ∧
+    relinearize false 1 4 3 T exTsk.base2k exTsk exTsk.size (zeroCols 1 2 3) = some res ∧ C02L.GWF 1 (Ks.mkCt 4 1 res) := by
+  obtain ⟨T, res, h1, h2, h3, _⟩ := glwe_mul_noise_bound false 1 2 4 4 [[[3], [0]], [[1], [0]]] [[[2], [0]], [[1], [0]]] 8 8 (zeroCols 1 3 2)
+    exTsk 4 3 (zeroCols 1 2 3) [[2]] [[2], Hal.negMul [2] [2]] (fun i => if i = 0 then [1] else [2])
+    (fun i r => if i = 0 ∧ r = 0 then Ks.keyErrL 1 4 [[2]] exTsk.toKey (fun _ => Hal.negMul [2] [2]) 0 0 else zeroP 1)
+    (2 ^ 61) 1 (2 ^ 40) 2 2 2 (by decide) rfl rfl (by decide)
+    (by decide) (by decide) (by decide) (by decide) (by decide) (by decide) (by decide) (by decide) (by decide) (by decide) (by decide) (by decide)
+    (by decide)
+    (by
+      intro i j hij hj
+      have h01 : i = 0 ∧ j = 1 := by omega
+      obtain ⟨rfl, rfl⟩ := h01
+      decide)
+    (by decide) (by intro i; by_cases h : i = 0 <;> simp [h])
+    (by show Ks.ι 1 [1] = 1; unfold Ks.ι; simp [toPoly])
+    (by
+      intro i j hij hj hpos
+      have hcases : (i = 0 ∧ j = 1) ∨ (i = 1 ∧ j = 1) := by
+        have hj2 : j < 2 := hj
+        have : ¬ (i = 0 ∧ j = 0) := by
+          rintro ⟨rfl, rfl⟩; simp [cix, colIdx] at hpos
+        omega
+      rcases hcases with ⟨rfl, rfl⟩ | ⟨rfl, rfl⟩
+      · have e : cix 2 0 1 - 1 = 0 := by decide
+        rw [e]
+        show Ks.ι 1 [2] = Ks.ι 1 [1] * Ks.ι 1 [2]
+        have : Ks.ι 1 [1] = 1 := by unfold Ks.ι; simp [toPoly]
+        rw [this, one_mul]
+      · have e : cix 2 1 1 - 1 = 1 := by decide
+        rw [e]
+        show Ks.ι 1 (Hal.negMul [2] [2]) = Ks.ι 1 [2] * Ks.ι 1 [2]
+        rw [Ks.ι_negMul 1 _ _ rfl (by decide)])
+    (by decide)
+    (by intro k hk; have h0 : k = 0 := by omega
+        subst h0; rfl)
+    rfl (by decide) (by decide) (by decide) (by decide) (by decide) (by decide) (by decide +kernel) (by decide) (by decide) rfl (by decide)
+    (Ks.entry_length exTsk.toPMat 1 rfl (by decide +kernel)) (by decide) (by decide) (by decide)
+    (by
+      intro i r
+      by_cases h : i = 0 ∧ r = 0
+      · simp only [h, and_self, if_true]
+        exact Ks.keyErrL_length 1 4 [[2]] exTsk.toKey _ 0 0 (by decide) (Ks.entry_length exTsk.toPMat 1 rfl (by decide +kernel)) (fun _ => by decide)
+      · simp only [h, if_false]; rfl)
+    (by
+      intro i r
+      by_cases h : i = 0 ∧ r = 0
+      · simp only [h, and_self, if_true]; decide +kernel
+      · simp only [h, if_false]; decide)
+    (by
+      intro i hi r hr
+      have hi0 : i = 0 := by
+        have : i < 1 := hi
+        omega
+      have hr0 : r = 0 := by
+        have : r < 1 := hr
+        omega
+      subst hi0; subst hr0
+      simp only [and_self, if_true]
+      have := Ks.keyErrL_spec 1 4 [[2]] exTsk.toKey (fun _ => Hal.negMul [2] [2]) 0 0 (by decide)
+        (Ks.entry_length exTsk.toPMat 1 rfl (by decide +kernel)) (fun _ => by decide)
+      rw [Ks.radix_eq] at this
+      rw [one_mul]
+      exact this)
+  exact ⟨T, res, h1, h2, h3⟩
+
+/-- the closed-form ct × ct bound on the bench-core set (`N = 4096`, `b = 18`, rank 1, `‖s‖₁ ≤ 64`, three limbs, tensor key `dnum = 3`, `dsize = 1`, key
+errors `‖EL‖_∞ ≤ 2^8`): at most `2^46` units of the result's last limb (unit `A·2^{bt·S}` of the left-hand side) -/
+example : glweMulNoiseBound 4096 2 (fun i => if i = 0 then 1 else 64) 64 18 18 3 18 3 0 5 3 (3 * (4096 * 2 ^ 18 * 2 ^ 18)) 1 3 1 3 (2 ^ 8)
+    ≤ 2 ^ 46 * (2 ^ (18 * (5 - 3)) * 2 ^ (18 * 3) * 2 ^ (18 * 3)) := by decide
 
 end C05
